@@ -292,8 +292,12 @@ fn gen_doc(rng: &mut Rng, i: usize) -> Doc {
                 lines.push(l);
                 j += 1;
             }
-            lines.push(format!("bad{}: x", fillr(rng, 0, 8, false).replace('-', "q").replace('0', "r")));
-            for _ in 0..rng.below(3) { lines.push(format!("t{}: 1", rng.below(1000) + 100000)); }
+            // the failing line anywhere in the retained tail: at the very end, or with up to ~150 lines after it (a window
+            // whose first line number is wrong then still has a line to show under the reported number)
+            let bad = format!("bad{}: x", fillr(rng, 0, 8, false).replace('-', "q").replace('0', "r"));
+            let after = if rng.chance(1, 3) { rng.below(3) } else { 10 + rng.below(140) };
+            let at = lines.len().saturating_sub(after).max(1);
+            lines.insert(at, bad);
             let mut text = lines.join("\n");
             text.push('\n');
             return Doc { text, target: Target::Map, family: "ring" };
